@@ -349,3 +349,145 @@ Proof.
       eapply IH; eassumption.
     + replace (0 <=? -1)%Z with false by reflexivity. eapply IH; eassumption.
 Qed.
+
+(* ---- AuthenticatedDo (runHandshake) ------------------------------------------------------ *)
+Lemma emitted_app : forall a b, emitted_challenges (a ++ b) = emitted_challenges a ++ emitted_challenges b.
+Proof. intros. unfold emitted_challenges. apply flat_map_app. Qed.
+
+Lemma emitted_cons : forall x l,
+  emitted_challenges (x :: l) = (if fst x =? N_CHALS then [snd x] else []) ++ emitted_challenges l.
+Proof. reflexivity. Qed.
+
+Lemma emitted_echo : forall name v, name <> N_CHALS -> emitted_challenges (echo name v) = [].
+Proof.
+  intros name v H. unfold echo, wparam. destruct (plen v =? 0)%Z; [reflexivity|].
+  cbn. destruct (name =? N_CHALS) eqn:E; [apply N.eqb_eq in E; contradiction | reflexivity].
+Qed.
+
+Lemma emitted_sig : forall c sg, client_sig c = Some sg -> emitted_challenges sg = [].
+Proof. intros c sg H. unfold client_sig in H. destruct (cl_spk c); inversion H. reflexivity. Qed.
+
+Lemma run_sign_emitted : forall c f c' ok, run_sign c f = (c', ok) ->
+  incl (emitted_challenges (cl_out c')) [atom f].
+Proof.
+  intros c f c' ok H. unfold run_sign in H.
+  destruct (plen (p_chalC (cl_p c)) <? challengeLen)%Z.
+  - inversion H; subst. cbn. intros x [].
+  - destruct (client_sig (set_chal c (atom f))) as [sg|] eqn:Es; inversion H; subst; cbn [cl_out set_state set_out].
+    + rewrite !emitted_cons, emitted_app, (emitted_sig _ _ Es), emitted_echo by discriminate.
+      cbn. intros x Hx. exact Hx.
+    + cbn. intros x Hx. exact Hx.
+Qed.
+
+(* a Run emits no challenge but the one it was armed with *)
+Lemma client_run_emitted : forall c f c' ok, client_run sym_verify c f = (c', ok) ->
+  incl (emitted_challenges (cl_out c')) (atom f :: emitted_challenges (cl_out c)).
+Proof.
+  intros c f c' ok H. unfold client_run in H.
+  assert (S1 : forall c0, run_sign c0 f = (c', ok) ->
+                          incl (emitted_challenges (cl_out c')) (atom f :: emitted_challenges (cl_out c))).
+  { intros c0 H0 x Hx. apply (run_sign_emitted _ _ _ _ H0) in Hx. destruct Hx as [<-|[]]. left. reflexivity. }
+  destruct (cl_state c).
+  - apply (S1 c), H.
+  - destruct (client_verify sym_verify c); inversion H; subst; cbn [cl_out set_state set_out];
+      [rewrite emitted_echo by discriminate|]; intros x [].
+  - inversion H; subst. intros x Hx. right. exact Hx.
+  - inversion H; subst. cbn. intros x Hx. destruct Hx as [<-|[]]. left. reflexivity.
+  - destruct ((plen (p_sig (cl_p c)) =? 0)%Z && negb (plen (p_chalC (cl_p c)) =? 0)%Z).
+    + apply (S1 _ H).
+    + destruct (client_verify sym_verify c); inversion H; subst; cbn [cl_out set_state set_out].
+      * rewrite emitted_app, emitted_echo by discriminate.
+        destruct (client_sig c) as [sg|] eqn:Es; [rewrite (emitted_sig _ _ Es)|]; intros x [].
+      * intros x [].
+  - inversion H; subst. cbn [cl_out set_state set_out]. rewrite emitted_echo by discriminate. intros x [].
+Qed.
+
+Lemma parse_pubkey_out : forall c1 P c' ok, parse_pubkey c1 P = (c', ok) -> cl_out c' = cl_out c1.
+Proof.
+  intros c1 P c' ok H. destruct (parse_pubkey_shape _ _ _ _ H) as [->|[_ [q ->]]]; reflexivity.
+Qed.
+
+Lemma client_parse_out : forall c tbl www info c' ok,
+  client_parse c tbl www info = Some (c', ok) -> cl_out c' = cl_out c.
+Proof.
+  intros c tbl www info c' ok H. unfold client_parse in H.
+  assert (B : forall hv, parse_body c tbl hv = Some (c', ok) -> cl_out c' = cl_out c).
+  { intros hv Hb. unfold parse_body in Hb. destruct hv as [|b0 hv'].
+    - inversion Hb. reflexivity.
+    - destruct (parse_scheme_params (b0 :: hv') bp_empty) as [bp e].
+      destruct (lift_params tbl bp) as [P|]; [|discriminate].
+      destruct e; try (inversion Hb; reflexivity).
+      destruct (parse_pubkey (set_p c P) P) as [c2 ok2] eqn:E. inversion Hb; subst.
+      rewrite (parse_pubkey_out _ _ _ _ E). reflexivity. }
+  destruct (cl_state c); try (inversion H; reflexivity); eapply B; exact H.
+Qed.
+
+Lemma resp_values_cons : forall r rs,
+  resp_values (r :: rs) = (carried (r_tbl r) (r_www r) ++ carried (r_tbl r) (r_info r)) ++ resp_values rs.
+Proof. reflexivity. Qed.
+
+(* along the loop: the invariant, with the own challenges inside the armed
+   random draws F and the received values inside the responses' values V *)
+Lemma loop_proved : forall steps k h c sent resps fresh reqs own vals F V p qs,
+  Inv k h c own vals -> incl (emitted_challenges (cl_out c)) own ->
+  incl own F -> incl vals V -> incl (map atom fresh) F -> incl (resp_values resps) V ->
+  handshake_loop sym_verify steps c sent resps fresh reqs = Some (Some p, qs) ->
+  proved k h F V p.
+Proof.
+  induction steps as [|n IH]; intros k h c sent resps fresh reqs own vals F V p qs HI He Ho Hv Hf Hr H;
+    cbn [handshake_loop] in H.
+  - destruct (is_done c && sent); inversion H; subst.
+    eapply proved_mono; [exact Ho | exact Hv | apply (inv_proved _ _ _ _ _ HI); assumption].
+  - destruct (is_done c && sent).
+    + inversion H; subst.
+      eapply proved_mono; [exact Ho | exact Hv | apply (inv_proved _ _ _ _ _ HI); assumption].
+    + destruct resps as [|r rs]; [discriminate|]. destruct fresh as [|f fs]; [discriminate|].
+      destruct (client_parse c (r_tbl r) (r_www r) (r_info r)) as [[c1 ok1]|] eqn:Ep; [|discriminate].
+      destruct (client_run sym_verify c1 f) as [c2 ok2] eqn:Er. destruct ok2; [|discriminate].
+      pose proof (client_parse_inv _ _ _ _ _ _ _ _ _ _ HI Ep) as HI1.
+      pose proof (client_run_inv _ _ _ _ _ _ _ _ HI1 Er) as HI2.
+      rewrite resp_values_cons in Hr.
+      eapply (IH k h c2 _ rs fs _ _ _ F V p qs HI2); try exact H.
+      * apply incl_appl, incl_refl.
+      * intros x Hx. apply in_app_or in Hx. destruct Hx as [Hx|Hx]; [|apply Ho, Hx].
+        apply (client_run_emitted _ _ _ _ Er) in Hx. destruct Hx as [<-|Hx].
+        -- apply Hf. left. reflexivity.
+        -- rewrite (client_parse_out _ _ _ _ _ _ Ep) in Hx. apply Ho, He, Hx.
+      * intros x Hx. rewrite app_assoc in Hx. apply in_app_or in Hx. destruct Hx as [Hx|Hx].
+        -- apply Hr. apply in_or_app. left. exact Hx.
+        -- apply Hv, Hx.
+      * intros x Hx. apply Hf. right. exact Hx.
+      * intros x Hx. apply Hr. apply in_or_app. right. exact Hx.
+Qed.
+
+(* AuthenticatedDo returns a server id only if a response carried a signature that
+   verifies under that id's key over a challenge drawn in this call, the client's
+   key and the hostname *)
+Theorem auth_do_proved_l : forall k h resps fresh p qs,
+  auth_do_i k h resps fresh = Some (Some p, qs) ->
+  proved k h (map atom fresh) (resp_values resps) p.
+Proof.
+  intros k h resps fresh p qs H. unfold auth_do_i, auth_do in H. destruct fresh as [|f0 fs]; [discriminate|].
+  destruct (client_run sym_verify (client_set_initiate (client_init k h)) f0) as [c ok] eqn:Er.
+  destruct ok; [|discriminate].
+  assert (HI0 : Inv k h (client_set_initiate (client_init k h)) [] []).
+  { pose proof (cop_step_inv k h _ [] [] OInit _ true (inv_init k h) eq_refl) as X. exact X. }
+  pose proof (client_run_inv _ _ _ _ _ _ _ _ HI0 Er) as HI1.
+  eapply (loop_proved 5 k h c false resps fs [] _ _ (map atom (f0 :: fs)) (resp_values resps) p qs HI1); try exact H.
+  - apply incl_appl, incl_refl.
+  - intros x Hx. apply in_app_or in Hx. destruct Hx as [Hx|[]].
+    apply (client_run_emitted _ _ _ _ Er) in Hx. destruct Hx as [<-|[]]. left. reflexivity.
+  - intros x [].
+  - intros x Hx. right. exact Hx.
+  - apply incl_refl.
+Qed.
+
+Theorem monitor5_model_l : forall k h resps fresh pid qs,
+  auth_do_i k h resps fresh = Some (pid, qs) ->
+  monitor5 (mkC5 k h fresh resps (z_of_on pid) qs) = [].
+Proof.
+  intros k h resps fresh pid qs H. unfold monitor5. cbn [c5_pid c5_key c5_host c5_fresh c5_resps].
+  destruct pid as [p|]; cbn [z_of_on]; [|reflexivity].
+  assert (E : (0 <=? Z.of_N p)%Z = true) by (apply Z.leb_le; lia). rewrite E, N2Z.id.
+  rewrite (proved_proves _ _ _ _ _ (auth_do_proved_l _ _ _ _ _ _ H)). reflexivity.
+Qed.
